@@ -681,7 +681,25 @@ func init() {
 			}
 			fd := c.P.Decl(bp)
 			removeCalls, trimCalls := 0, 0
-			ast.Inspect(fd.Body, func(n ast.Node) bool {
+			// BasicParser and the helpers the state-machine walker walks in place (a prologue moved into a helper)
+			bodies := []ast.Node{fd.Body}
+			if sm := BuildSM(c); sm.An != nil {
+				var hs []*ast.FuncDecl
+				for _, d := range sm.An.inlMemo {
+					if d != nil {
+						hs = append(hs, d)
+					}
+				}
+				sort.Slice(hs, func(i, j int) bool { return hs[i].Pos() < hs[j].Pos() })
+				for _, d := range hs {
+					bodies = append(bodies, d.Body)
+				}
+			}
+			all := &ast.BlockStmt{}
+			for _, b := range bodies {
+				all.List = append(all.List, b.(*ast.BlockStmt))
+			}
+			ast.Inspect(all, func(n ast.Node) bool {
 				call, ok := n.(*ast.CallExpr)
 				if !ok || len(call.Args) != 2 {
 					return true
@@ -938,8 +956,11 @@ func init() {
 										}
 										if ld, ok := pr[0].(*ssa.UnOp); ok {
 											if ia, ok := ld.X.(*ssa.IndexAddr); ok {
-												if sc, ok := ia.X.(*ssa.Call); ok && sc.Common().StaticCallee() != nil && core.PkgPathOf(sc.Common().StaticCallee()) == "strings" {
-													okSkip = true
+												if sc, ok := ia.X.(*ssa.Call); ok && sc.Common().StaticCallee() != nil && core.PkgPathOf(sc.Common().StaticCallee()) == "strings" && len(sc.Common().Args) >= 2 {
+													// … of the split on "&" (an empty piece of the name/value split is no reason to skip)
+													if sep, ok := constString(sc.Common().Args[1]); ok && sep == "&" {
+														okSkip = true
+													}
 												}
 											}
 										}
